@@ -62,6 +62,7 @@ def c_encode_cases(u, groups, rng, tier, op):
         r = rng.fork(op + name)
         vals = values_for(u, r, name, b['vals_per_type'])
         vals.append(ValGen(u, r, minimal=True, max_depth=4).val(st(name)))
+        vals.append(ValGen(u, r, alternate=True, max_depth=4).val(st(name)))
         if name in groups.get('maps1', []):
             ms = map_size_values(u, r, name)
             vals += ms if tier == 'thorough' else [ms[r.below(len(ms))], ms[6]]
@@ -101,10 +102,13 @@ def hexs(b):
     return b.hex() if b else '-'
 
 
+def c03_cases_placeholder_check(): pass
+
+
 def c03_cases(u, groups, rng, tier):
     """well-formed messages from any writer: own encoding, foreign field order, evolved schemas, trailing bytes"""
     b = budget(tier)
-    out = []
+    out = leftover_cases(u, rng.fork('leftover'), per=1)
     for name in all_names(u):
         r = rng.fork('c03' + name)
         for j in range(b['msgs_per_type'] + 1):
@@ -197,8 +201,41 @@ def c09_cases(u, groups, rng, tier):
     return out
 
 
-def c10_cases(u, groups, rng, tier):
+def leftover_cases(u, rng, names=None, per=2):
+    """messages in which a full container element is followed by a sparse one (all optional
+    parts absent), in wire order: state left in a reused temporary shows in the sparse element"""
     out = []
+    for s in valid_structs(u):
+        if names is not None and s.name not in names:
+            continue
+        for f in s.sorted_fields():
+            t = f.ty
+            if t[0] == 'ptr':
+                continue
+            inner = t[2] if t[0] == 'map' else (t[1] if t[0] in ('list', 'set') else None)
+            if inner is None or inner[0] not in ('struct', 'list', 'set', 'map', 'binary', 'string'):
+                continue
+            if inner[0] in ('string', 'binary') and t[0] != 'map':
+                continue
+            for j in range(per):
+                r = rng.fork('left%s%d%d' % (s.name, f.fid, j))
+                fv = ValGen(u, r, alternate=True, max_depth=4).val(t, 1)
+                v = u.zero(st(s.name))
+                fs = list(v[2])
+                fs[s.sorted_fields().index(f)] = fv
+                # required fields of the enclosing struct get ordinary values
+                vg = ValGen(u, r, big=False, max_depth=2)
+                for i, g in enumerate(s.sorted_fields()):
+                    if g.req == 'required' and g is not f:
+                        fs[i] = vg.val(g.ty, 2)
+                v = ('t', b'', fs)
+                msg = put_py(denote_py(u, st(s.name), v))
+                out.append(('(dec %s fresh %s)' % (s.name, hexs(msg)), {'type': s.name, 'op': 'dec', 'class': 'full-then-sparse'}))
+    return out
+
+
+def c10_cases(u, groups, rng, tier):
+    out = leftover_cases(u, rng.fork('leftover'))
     names = groups.get('defaults', []) + [s.name for s in valid_structs(u) if s.init is not None and s.name not in groups.get('defaults', [])]
     users = [s.name for s in valid_structs(u) if any(n in annot(f.ty) for f in s.fields for n in names)]
     k = 8 if tier == 'quick' else 60
@@ -206,7 +243,7 @@ def c10_cases(u, groups, rng, tier):
         s = u.by_name[name]
         r = rng.fork('c10' + name)
         for j in range(k):
-            v = ValGen(u, r, big=False, max_depth=3).val(st(name))
+            v = ValGen(u, r, big=False, max_depth=3, alternate=(j % 3 == 2)).val(st(name))
             # make some fields equal to their defaults (incl. -0.0 vs 0.0)
             if s.init is not None:
                 ex = u.fresh(s)[2]
@@ -269,6 +306,20 @@ def c15_cases(u, groups, rng, tier):
     for shape in ('struct', 'list', 'map', 'unknown-struct', 'unknown-list'):
         for d in depths:
             out.append(('(dec Rec fresh %s)' % hexs(deep_message(shape, d)), {'type': 'Rec', 'op': 'dec', 'shape': shape, 'depth': d}))
+    # mixtures: the budget is spent 2 per struct hop and 3 per container hop, so every residue of
+    # the limit is reached by some mixture; random mixtures far beyond the limit and around it
+    def mixed(hops):
+        pre = {'s': b'\x0c\x00\x02', 'l': b'\x0f\x00\x03\x0c\x00\x00\x00\x01', 'm': b'\x0d\x00\x04\x0b\x0c\x00\x00\x00\x01\x00\x00\x00\x01k'}
+        return b''.join(pre[h] for h in hops) + b'\x08\x00\x01\x00\x00\x00\x07' + b'\x00' * (len(hops) + 1)
+    for a in range(0, 4):
+        for c in 'lm':
+            for n in (330, 338, 339, 340, 341, 342, 343, 400, 700):
+                hops = 's' * a + c * n
+                out.append(('(dec Rec fresh %s)' % hexs(mixed(hops)), {'type': 'Rec', 'op': 'dec', 'shape': 'mixed-' + c, 'depth': len(hops)}))
+    for j in range(12 if tier == 'quick' else 200):
+        r = rng.fork('mix%d' % j)
+        hops = ''.join(r.pick('sslm') for _ in range(r.pick([300, 420, 480, 520, 700, 1100])))
+        out.append(('(dec Rec fresh %s)' % hexs(mixed(hops)), {'type': 'Rec', 'op': 'dec', 'shape': 'mixed-random', 'depth': len(hops)}))
     # key-side nesting: RecKey.F1 map<RecKey, i32>
     for d in [1, 47, 48, 49, 340, 341, 342, 511, 512, 1024]:
         msg = (b'\x0d\x00\x01\x0c\x08\x00\x00\x00\x01' * d) + b'\x00' + (b'\x00\x00\x00\x05\x00' * d)
@@ -334,7 +385,7 @@ GENERATORS['C13'] = c13_cases
 # ------------------------------------------------------------------ sessions (state between calls)
 
 def small_val(u, rng, name):
-    return ValGen(u, rng, big=False, max_depth=2).val(st(name))
+    return ValGen(u, rng, big=False, max_depth=3 if rng.chance(1, 3) else 2, alternate=rng.chance(1, 3)).val(st(name))
 
 
 def random_op(u, groups, rng, names, bad_names):
@@ -589,6 +640,17 @@ def c05_all(u, g, r, t):
         if rr.chance(1, 12 if t == 'quick' else 4):
             m = sx.split(' ')
             extra.append(('(decm %s %s)' % (m[1], m[3].rstrip(')')), {'op': 'decm', 'type': m[1]}))
+    for name in ['Leaf', 'Hold', 'NoHold', 'Rec', 'ScI32']:
+        if name not in u.by_name:
+            continue
+        for vc, vw in ((6, 2), (8, 4), (10, 8), (4, 8)):
+            for kc, kb in ((11, b'\x00\x00\x00\x02ab'), (12, b'\x08\x00\x01\x00\x00\x00\x01\x00'), (15, b'\x03\x00\x00\x00\x01\x07')):
+                for cnt in (1, 2):
+                    body = b''.join(kb + bytes(range(1, vw + 1)) for _ in range(cnt))
+                    fld = b'\x0d\x77\x77' + bytes([kc, vc]) + cnt.to_bytes(4, 'big') + body
+                    full = b'\x08\x00\x01\x00\x00\x00\x05' + fld + b'\x00'
+                    for cut in range(len(full) - vw - 2, len(full) + 1):
+                        base.append(('(dec %s fresh %s)' % (name, hexs(full[:cut])), {'op': 'dec', 'type': name, 'class': 'skip-overrun'}))
     for name, hdr in [('LiI64', b'\x0f\x00\x01\x0a'), ('LiString', b'\x0f\x00\x01\x0b'), ('LiLeaf', b'\x0f\x00\x01\x0c'),
                       ('M1I32XString', b'\x0d\x00\x01\x08\x0b'), ('M1StringXPLeaf', b'\x0d\x00\x01\x0b\x0c'), ('ScString', b'\x0b\x00\x01'),
                       ('ScBinary', b'\x0b\x00\x01')]:
